@@ -270,4 +270,17 @@ theorem before_of_pairwise {α : Type} {R : α → α → Prop} {l : List α} (h
       · obtain ⟨l1, l2, l3, rfl⟩ := ih hp' hx' hy'
         exact ⟨a :: l1, l2, l3, by simp⟩
 
+theorem map_some_inj {α : Type} : ∀ (l1 l2 : List α), l1.map some = l2.map some → l1 = l2 := by
+  intro l1
+  induction l1 with
+  | nil => intro l2 h; cases l2 with
+    | nil => rfl
+    | cons _ _ => simp at h
+  | cons x xs ih => intro l2 h; cases l2 with
+    | nil => simp at h
+    | cons y ys =>
+      simp only [List.map_cons, List.cons.injEq, Option.some.injEq] at h
+      rw [h.1, ih ys h.2]
+
+
 end Indexer
